@@ -697,7 +697,15 @@ def _c19_merge(rec):
     groups = {}
     for g in gone:
         groups.setdefault(norm(g), set()).add(g)
-    return any(len(v) >= 2 for v in groups.values()) and len(new) < len(gone)
+    if any(len(v) >= 2 for v in groups.values()) and len(new) < len(gone):
+        return True
+    # ... or the old spellings survive elsewhere (as attributes, parameters): a new identifier that took over occurrences of two different old ones
+    count = lambda text, n: len(re.findall(r"(?<![A-Za-z0-9_])" + re.escape(n) + r"(?![A-Za-z0-9_])", text or ""))  # noqa: E731
+    for n in new:
+        lost_to_n = {g for g in _identifiers(b[1]) if g != n and norm(g) == norm(n) and count(b[1], g) > count(b[2], g)}
+        if len(lost_to_n) >= 2:
+            return True
+    return False
 
 
 @classifier("renamed-name-is-bound-in-several-ways")
